@@ -4,6 +4,9 @@
 
 package db
 
+// WithoutRowid and Table are set when the Schema is allocated (newCreateTable) and never again.
+//@ immutable db.Schema.WithoutRowid db.Schema.Table
+
 // reflect.DeepEqual on two column lists: an equivalence (deepid: identity of the deep contents).
 //@ extern reflect.DeepEqual
 //@   pure
